@@ -294,6 +294,7 @@ protected:
   inline void impl_reset_sandbox() { brk = 16; }
 
   // ---- pointer translation with context
+  static inline bool strict_function_table = false; // harness switch, see impl_get_unsandboxed_pointer
   template<typename T>
   inline void* impl_get_unsandboxed_pointer(T_PointerType p) const
   {
@@ -306,7 +307,9 @@ protected:
       if (r >= CB_TABLE_BASE && r - CB_TABLE_BASE < MAX_CALLBACKS) {
         return &cb_addr_tag[r - CB_TABLE_BASE];
       }
-      return nullptr;
+      // a backend may treat an index outside its function table as an error of its own (a bounds-checked table) ...
+      if (strict_function_table) detail::dynamic_check(false, "vsbx: function table index out of range");
+      return nullptr; // ... or answer "no such function"
     } else {
       // any representation designates an in-region address (cf. a wasm heap)
       return reinterpret_cast<void*>(
